@@ -39,7 +39,8 @@ class StructuredRecord(object):
 
     @classmethod
     def _get_regex(cls):
-        if cls._regex is None:
+        # look at the class's own namespace: an inherited pattern is the parent's
+        if cls.__dict__.get("_regex") is None:
             cls._regex = DNARegex(cls.structure())
         return cls._regex
 
